@@ -38,6 +38,8 @@ fn base(t: &mut Tape, tapes: &[Vec<u32>], cfg: Cfg, reqs: Vec<Req>) -> PairCase 
     let n2 = t3.below(120);
     let chunk_s2c = (0..n2).map(|_| t3.u32()).collect();
     PairCase {
+        cap: None,
+        accept_limit: None,
         ccfg: cfg.clone(),
         scfg: cfg,
         client_init_max_send: None,
@@ -712,6 +714,241 @@ impl Engine for FlowEngine {
             out.label("window-reconfigured");
         }
         out.nontrivial = padded || discard || !case.base.ops.is_empty();
+        out.note = format!("{} wire frames, end={:?}, script_done={}", an.tap.frames.len(), rr.run.end, rr.obs.script_done);
+        out
+    }
+}
+
+// ------------------------------------------------------------ C16: the send-capacity API
+
+pub fn gen_cap_server(tapes: &[Vec<u32>]) -> RawCase {
+    let mut t = Tape::new(&tapes[0]);
+    let mut cfg = plain_cfg();
+    if t.chance(1, 2) {
+        cfg.max_send_buffer = Some(*t.pick(&[1usize, 100, 1000, 16384, 1 << 20]));
+    }
+    let k = 1 + t.below(4);
+    let return_variant = k >= 2 && t.chance(1, 3);
+    let peer_iw = if return_variant { 1 << 20 } else { *t.pick(&[65535u32, 1000, 100_000, 1 << 20]) };
+    let mut script: Vec<PStep> = vec![PStep::Barrier];
+    for i in 0..k {
+        script.push(hdr(2 * i as u32 + 1, "GET", true));
+    }
+    script.push(PStep::Barrier);
+    let mut ops: Vec<CapOp> = Vec::new();
+    let mut grant = *t.pick(&[Grant::Eager, Grant::Threshold(10000), Grant::Drip(500)]);
+    let mut item = "truth";
+    if return_variant {
+        // nothing is ever granted: the 65535 bytes of connection window are all there is
+        grant = Grant::Never;
+        let (a, b) = (0usize, 1usize);
+        ops.push(CapOp::Reserve { s: a, n: 65535 + t.below(3) * 1000 });
+        ops.push(CapOp::WaitCap { s: a });
+        if t.bool() {
+            ops.push(CapOp::Census);
+        }
+        let nb = 1 + t.below(30000);
+        ops.push(CapOp::Reserve { s: b, n: nb });
+        ops.push(CapOp::Yield(t.below(5)));
+        match t.below(5) {
+            0 => {
+                ops.push(CapOp::Reserve { s: a, n: 0 });
+                item = "return:lower-to-zero";
+            }
+            1 => {
+                ops.push(CapOp::Reserve { s: a, n: t.below(20000) });
+                item = "return:lower";
+            }
+            2 => {
+                ops.push(CapOp::End { s: a });
+                item = "return:end-stream";
+            }
+            3 => {
+                ops.push(CapOp::Reset { s: a, code: 8 });
+                item = "return:reset";
+            }
+            _ => {
+                ops.push(CapOp::Drop { s: a });
+                item = "return:drop";
+            }
+        }
+        ops.push(CapOp::WaitCap { s: b });
+        ops.push(CapOp::SendCap { s: b });
+        ops.push(CapOp::Census);
+        script.push(PStep::Yield(400));
+    } else {
+        // phase 1: anything goes while the peer grants normally
+        let n1 = t.below(14);
+        for _ in 0..n1 {
+            let s = t.below(k);
+            ops.push(match t.weighted(&[4, 3, 2, 3, 1, 2]) {
+                0 => CapOp::Reserve { s, n: *t.pick(&[0usize, 1, 100, 5000, 16384, 40000, 70000, 200_000]) },
+                1 => CapOp::WaitCap { s },
+                2 => CapOp::Send { s, n: *t.pick(&[1usize, 100, 5000, 20000, 70000]) },
+                3 => CapOp::SendCap { s },
+                4 => CapOp::Census,
+                _ => CapOp::Yield(1 + t.below(10)),
+            });
+            // a sequential program must not wait on one stream while its other streams sit on assigned capacity
+            // they do not use (a circular wait of its own making), nor wait without a reservation: before every
+            // wait the other streams send what they hold and give up their reservations
+            if let Some(CapOp::WaitCap { s }) = ops.last().cloned() {
+                let n = ops.len();
+                let mut pre: Vec<CapOp> = Vec::new();
+                for o in 0..k {
+                    if o != s {
+                        pre.push(CapOp::SendCap { s: o });
+                        pre.push(CapOp::Reserve { s: o, n: 0 });
+                    }
+                }
+                pre.push(CapOp::Reserve { s, n: 1 + t.below(30000) });
+                for (j, o) in pre.into_iter().enumerate() {
+                    ops.insert(n - 1 + j, o);
+                }
+            }
+        }
+        // the peer freezes all grants while the program sleeps
+        ops.push(CapOp::Yield(260));
+        script.push(PStep::Yield(70));
+        script.push(PStep::SetGrant(Grant::Never));
+        script.push(PStep::Mark("frozen".into()));
+        // phase 2: what capacity() says can be sent
+        ops.push(CapOp::Census);
+        for s in 0..k {
+            if t.chance(3, 4) {
+                ops.push(CapOp::SendCap { s });
+            }
+        }
+        ops.push(CapOp::Yield(120));
+        ops.push(CapOp::Census);
+        script.push(PStep::Yield(700));
+        script.push(PStep::Mark("thaw".into()));
+        script.push(PStep::SetGrant(Grant::Eager));
+    }
+    for i in 0..k {
+        script.push(PStep::WaitEnd(2 * i as u32 + 1));
+    }
+    script.push(PStep::Barrier);
+    let spec = RawSpec { peer_settings: vec![(4, peer_iw)], script, grant, close_at_end: true };
+    let mut b = base(&mut t, tapes, cfg, vec![]);
+    b.cap = Some(CapProgram { streams: k, ops });
+    let inj = Inject { item: item.into(), state: format!("{}-streams", k), class: Class::Either, stream: 0, basis: "SendStream::{reserve_capacity, capacity, poll_capacity} documentation".into(), never_surface: vec![], must_deliver: vec![], must_deliver_streams: vec![], no_head: vec![], no_clean_end: vec![], prop: "C16".into(), wire_optional: true };
+    RawCase { h2_side: Side::Server, base: b, spec, inject: Some(inj), probe_stream: 0, e_out_cap: None }
+}
+
+pub fn check_c16(case: &RawCase, rr: &RawRun, tap: &Tap, out: &mut Outcome) {
+    let e = case.h2_side;
+    let item = case.inject.as_ref().map(|i| i.item.clone()).unwrap_or_default();
+    out.label(format!("variant:{}", item));
+    if rr.run.panic.is_some() {
+        return;
+    }
+    // (non-zero) a capacity notification never reports zero
+    for ev in rr.run.events.iter().filter(|ev| ev.side == e) {
+        if let Api::Capacity { got: 0 } = &ev.api {
+            out.fail("C16", "capacity/zero", "C16/poll_capacity-yields-zero", format!("poll_capacity on stream {} returned Some(Ok(0))", ev.key));
+        }
+    }
+    // (pool) census: Σ capacity ≤ connection credit the peer has granted and E has not yet put on the wire
+    let wu0: Vec<(u64, i64)> = tap.frames.iter().filter(|f| f.from != e).filter_map(|f| if let (Ok(Frame::WinUp { stream: 0, inc, .. }), Some(td)) = (&f.frame, f.t_d) { Some((td, *inc as i64)) } else { None }).collect();
+    let data_w: Vec<(u64, i64)> = tap.frames.iter().filter(|f| f.from == e).filter_map(|f| if let Ok(Frame::Data { .. }) = &f.frame { Some((f.t_w, f.frame.as_ref().unwrap().flow_len() as i64)) } else { None }).collect();
+    for ev in rr.run.events.iter().filter(|ev| ev.side == e) {
+        if let Api::ConnOp { op } = &ev.api {
+            if let Some(rest) = op.strip_prefix("census ") {
+                let total: i64 = rest.split(|c: char| !c.is_ascii_digit()).filter(|x| !x.is_empty()).enumerate().filter(|(i, _)| i % 2 == 1).filter_map(|(_, x)| x.parse::<i64>().ok()).sum();
+                let credit = 65535 + wu0.iter().filter(|x| x.0 <= ev.step).map(|x| x.1).sum::<i64>() - data_w.iter().filter(|x| x.0 <= ev.step).map(|x| x.1).sum::<i64>();
+                out.label("census");
+                if total > credit.max(0) {
+                    out.fail("C16", "capacity/pool", "C16/assigned-capacity-exceeds-connection-window", format!("at step {} capacity() over all streams adds up to {} but the connection window the peer granted leaves only {} ({})", ev.step, total, credit, rest));
+                }
+            }
+        }
+    }
+    // (truth) capacity() read after the freeze and sent at once must reach the wire without any further grant
+    let frozen = rr.obs.marks.iter().find(|m| m.0 == "frozen").map(|m| m.1);
+    let thaw = rr.obs.marks.iter().find(|m| m.0 == "thaw").map(|m| m.1);
+    if let Some(f) = frozen {
+        let last_grant_delivered = tap.frames.iter().filter(|fr| fr.from != e && matches!(&fr.frame, Ok(Frame::WinUp { .. }) | Ok(Frame::Settings { ack: false, .. }))).filter_map(|fr| fr.t_d).filter(|t| thaw.map(|th| *t < th).unwrap_or(true)).max().unwrap_or(0);
+        let _ = f;
+        // per stream: position (bytes) that must be on the wire before the thaw
+        let mut submitted: std::collections::HashMap<u32, u64> = std::collections::HashMap::new();
+        let mut must: std::collections::HashMap<u32, (u64, u64, usize)> = std::collections::HashMap::new();
+        let mut pending_cap: std::collections::HashMap<u32, (u64, usize)> = std::collections::HashMap::new();
+        for ev in rr.run.events.iter().filter(|ev| ev.side == e && ev.key != 0) {
+            match &ev.api {
+                Api::ConnOp { op } if op.starts_with("capacity() = ") => {
+                    let c: usize = op["capacity() = ".len()..].parse().unwrap_or(0);
+                    pending_cap.insert(ev.key, (ev.step, c));
+                }
+                Api::SentData { len, .. } => {
+                    let tot = submitted.entry(ev.key).or_insert(0);
+                    *tot += *len as u64;
+                    if let Some((t, c)) = pending_cap.remove(&ev.key) {
+                        // all grants delivered before the probe (with margin), and before the thaw
+                        if c > 0 && c == *len && t > last_grant_delivered + 8 && thaw.map(|th| t + 8 < th).unwrap_or(true) {
+                            must.insert(ev.key, (*tot, t, c));
+                        }
+                    }
+                }
+                _ => {}
+            }
+        }
+        for (sid, (pos, t, c)) in must {
+            out.label("truth-probed");
+            out.nontrivial = true;
+            let deadline = thaw.unwrap_or(u64::MAX);
+            let on_wire: u64 = tap.frames.iter().filter(|fr| fr.from == e && fr.raw.stream == sid && fr.t_w < deadline).filter_map(|fr| if let Ok(Frame::Data { data, .. }) = &fr.frame { Some(data.len() as u64) } else { None }).sum();
+            // the stream may have been reset by the program afterwards: then nothing is demanded
+            let reset_later = rr.run.events.iter().any(|ev| ev.side == e && ev.key == sid && matches!(&ev.api, Api::SentReset { .. } | Api::DroppedSend));
+            if on_wire < pos && !reset_later {
+                out.fail(
+                    "C16",
+                    "capacity/truth",
+                    "C16/reported-capacity-not-usable",
+                    format!("stream {}: capacity() said {} at step {} (no grant in flight, peer frozen) and exactly that much was sent, yet only {} of the {} bytes submitted so far reached the wire before the peer granted again", sid, c, t, on_wire, pos),
+                );
+            }
+        }
+    }
+    // (return / wake) the program itself finishes: every wait for capacity was woken
+    let done = rr.run.events.iter().any(|ev| matches!(&ev.api, Api::ConnOp { op } if op == "cap-app done"));
+    let started = rr.run.events.iter().any(|ev| ev.side == e && matches!(&ev.api, Api::SentHead { .. }));
+    if started && !done && rr.run.end == RunEnd::Quiescent {
+        let last = rr.run.events.iter().rev().find(|ev| ev.side == e).map(|ev| format!("{:?}", ev.api)).unwrap_or_default();
+        let sig = if item.starts_with("return:") { format!("C16/capacity-not-returned-to-waiting-stream/{}", &item[7..]) } else { "C16/capacity-wait-never-woken".to_string() };
+        out.fail("C16", "capacity/wake", sig, format!("variant {}: the capacity program is still waiting at quiescence (last event {}), completes_when_repolled={:?}", item, &last[..last.len().min(120)], rr.run.completed_when_repolled));
+    }
+    if item.starts_with("return:") && done {
+        out.nontrivial = true;
+        out.label("capacity-returned");
+    }
+}
+
+pub struct CapEngine;
+
+impl Engine for CapEngine {
+    type Case = RawCase;
+    fn name(&self) -> &'static str {
+        "raw-capacity-server"
+    }
+    fn tape_lens(&self) -> Vec<usize> {
+        vec![220, 301, 242]
+    }
+    fn gen(&self, tapes: &[Vec<u32>]) -> RawCase {
+        gen_cap_server(tapes)
+    }
+    fn rule(&self) -> String {
+        "h2 server whose application runs a generated sequential program over 1–4 response streams (reserve_capacity raise/lower/0, poll_capacity, capacity() censuses, sends within and beyond capacity, end/reset/drop; max_send_buffer_size and peer windows generated) against a reference peer that grants by policy and then freezes every grant; truth: capacity() read while frozen and sent at once must reach the wire before the thaw; pool: every census ≤ connection credit; no zero notifications; return: with the whole window assigned to stream A and B waiting, A lowering/ending/resetting/dropping lets B proceed with no grant at all; non-trivial = a frozen truth probe with capacity > 0, or a completed return scenario".into()
+    }
+    fn shrink_iters(&self) -> u32 {
+        400
+    }
+    fn run(&self, case: &RawCase) -> Outcome {
+        let rr = run_raw(case);
+        let an = analyse_raw(case, &rr);
+        let mut out = Outcome::default();
+        common_raw_oracles(case, &rr, &an, &mut out);
+        check_c16(case, &rr, &an.tap, &mut out);
         out.note = format!("{} wire frames, end={:?}, script_done={}", an.tap.frames.len(), rr.run.end, rr.obs.script_done);
         out
     }
